@@ -315,3 +315,25 @@ for _k, _v in {
     'C20': ' An unsigned variable is extracted under every policy.',
 }.items():
     ADDENDA[_k] = ADDENDA.get(_k, '') + _v
+
+# round 10
+for _k, _v in {
+    'C01': ' One coordinate name given by the caller next to a look-alike of another size.',
+    'C02': ' Caller-named coordinates; every cell selected in one call.',
+    'C03': ' Grid dimensions are compared with a reference table; a mesh without edges; caller-named coordinates.',
+    'C04': ' start_index stored as text; 2-D bounds stored (x, y, 4) are ignored in favour of derived cells.',
+    'C05': " An existing 'point' dimension; transposed edge tables.",
+    'C07': ' A zero-based table without start_index next to one-based faces.',
+    'C08': ' A series of datasets clipped with one mask into one working directory keeps its own coordinates.',
+    'C09': ' start_index stored as text; a mask made from a face list that names a face twice.',
+    'C10': ' start_index stored as text; tables stored in different orientations.',
+    'C11': ' Registration after detection has been used; SHOC detection after a dataset was opened with caller-given names.',
+    'C12': ' Each documented depth marker alone is enough for the convention to find the coordinate.',
+    'C13': ' A second depth axis with a dimension coordinate of its own.',
+    'C15': ' A bow-tie cell after holes; a square connectivity table stored transposed (reference geometry in the replay).',
+    'C16': ' Key before and after the polygons were worked out; a geometry variable with a record dimension.',
+    'C17': ' cftime calendars and epochs before 1582 / before the year 1000 in the round trip.',
+    'C19': ' Caller-given colour limits that contain a zero; longitude stored (x, y).',
+    'C20': ' A clip of 140 variables through the command line.',
+}.items():
+    ADDENDA[_k] = ADDENDA.get(_k, '') + _v
